@@ -68,8 +68,8 @@ def last_business_day_of_month(year, month):
 
 
 def at(d, tod):
-    """date d at time of day tod = (hour, minute) -> naive datetime."""
-    return _dt.datetime(d.year, d.month, d.day, tod[0], tod[1])
+    """date d at time of day tod = (hour, minute[, second]) -> naive datetime."""
+    return _dt.datetime(d.year, d.month, d.day, *tod)
 
 
 def dates_in_range(start, end):
